@@ -72,4 +72,455 @@ theorem whileCorrection_total (r : Relation) (g : DG.Graph) (hg : DG.GInv g) :
       rw [h5]
       exact ⟨_, rfl, h6⟩
 
+/-! ## write sets of the two monomial loops -/
+
+theorem wpred_iff (diag : Bool) (m : Mono) :
+    wpred diag m = true ↔ (m.scalar = .p ∨ (diag = true ∧ m.scalar = .w)) := by
+  unfold wpred
+  cases diag <;> cases m.scalar <;> decide
+
+theorem lpred_iff (diag : Bool) (m : Mono) :
+    lpred diag m = true ↔ (diag = true ∧ m.scalar ≠ .m) := by
+  unfold lpred
+  cases diag <;> cases m.scalar <;> decide
+
+theorem wfix_ne (diag : Bool) (m : Mono) (h : wfix diag m ≠ m) :
+    (m.scalar = .p ∨ (diag = true ∧ m.scalar = .w)) ∧ (wfix diag m).scalar = .i := by
+  unfold wfix at h ⊢
+  by_cases hp : wpred diag m = true
+  · rw [if_pos hp]
+    exact ⟨(wpred_iff diag m).1 hp, rfl⟩
+  · rw [if_neg hp] at h
+    exact absurd rfl h
+
+theorem lfix_ne (diag : Bool) (m : Mono) (h : lfix diag m ≠ m) :
+    diag = true ∧ m.scalar ≠ .m ∧ (lfix diag m).scalar = .i := by
+  unfold lfix at h ⊢
+  by_cases hp : lpred diag m = true
+  · rw [if_pos hp]
+    obtain ⟨h1, h2⟩ := (lpred_iff diag m).1 hp
+    exact ⟨h1, h2, rfl⟩
+  · rw [if_neg hp] at h
+    exact absurd rfl h
+
+theorem whileFixPoly_write_set (diag : Bool) (p p' : Poly) (g g' : DG.Graph)
+    (h : Relation.whileFixPoly diag p g = .ok (p', g')) :
+    p'.length = p.length ∧ ∀ k (hk : k < p.length) (hk' : k < p'.length),
+      p'[k].deltas = p[k].deltas ∧
+      (p'[k] ≠ p[k] →
+        (p[k].scalar = .p ∨ (diag = true ∧ p[k].scalar = .w)) ∧ p'[k].scalar = .i) := by
+  obtain ⟨e, _⟩ := whileFixPoly_spec diag p g (p', g') h
+  simp only at e
+  subst e
+  refine ⟨List.length_map _, ?_⟩
+  intro k hk hk'
+  rw [List.getElem_map]
+  exact ⟨wfix_deltas _ _, wfix_ne _ _⟩
+
+theorem loopFixCell_write_set (diag : Bool) (p ell : Poly) (g : DG.Graph) (p' ell' : Poly)
+    (g' : DG.Graph) (h : Relation.loopFixCell diag p ell g = .ok (p', ell', g')) :
+    p'.length = p.length ∧ ∀ k (hk : k < p.length) (hk' : k < p'.length),
+      p'[k].deltas = p[k].deltas ∧
+      (p'[k] ≠ p[k] → diag = true ∧ p[k].scalar ≠ .m ∧ p'[k].scalar = .i) := by
+  obtain ⟨e, _⟩ := loopFixCell_spec diag p ell g (p', ell', g') h
+  simp only at e
+  subst e
+  refine ⟨List.length_map _, ?_⟩
+  intro k hk hk'
+  rw [List.getElem_map]
+  exact ⟨lfix_deltas _ _, lfix_ne _ _⟩
+
+/-! ## evaluation above `o` -/
+
+theorem evalD_ne_o_iff (p : Poly) (c : Choice) :
+    p.evalD c ≠ .o ↔ ∃ m ∈ p, m.matchesC c = true ∧ m.scalar ≠ .o := by
+  induction p with
+  | nil => simp [evalD_nil]
+  | cons x t ih =>
+    rw [evalD_cons]
+    constructor
+    · intro h
+      by_cases hx : termAt x c = .o
+      · have ht : Poly.evalD t c ≠ .o := by
+          intro ht
+          apply h
+          rw [hx, ht]
+          rfl
+        obtain ⟨m, hm, h1, h2⟩ := ih.1 ht
+        exact ⟨m, List.mem_cons_of_mem _ hm, h1, h2⟩
+      · refine ⟨x, List.mem_cons_self .., ?_⟩
+        unfold termAt at hx
+        split at hx
+        · rename_i hmc
+          exact ⟨hmc, hx⟩
+        · exact absurd rfl hx
+    · rintro ⟨m, hm, h1, h2⟩ h
+      obtain ⟨e1, e2⟩ := add_eq_o h
+      rcases List.mem_cons.1 hm with rfl | hm
+      · unfold termAt at e1
+        rw [if_pos h1] at e1
+        exact h2 e1
+      · exact (ih.2 ⟨m, hm, h1, h2⟩) e2
+
+/-- no zero alongside + a value above `o` somewhere = no zero at all -/
+theorem no_o_of_NZA {p : Poly} (hn : NZA p) {c : Choice} (hv : p.evalD c ≠ .o) :
+    ∀ m ∈ p, m.scalar ≠ .o := by
+  by_cases hl : 1 < p.length
+  · exact hn.2 hl
+  · intro m hm hs
+    obtain ⟨m', hm', _, h2⟩ := (evalD_ne_o_iff p c).1 hv
+    match p, hl, hm, hm' with
+    | [x], _, hm, hm' =>
+      rw [List.mem_singleton] at hm hm'
+      subst hm
+      subst hm'
+      exact h2 hs
+    | [], _, hm, _ => cases hm
+    | _ :: _ :: _, hl, _, _ => exact hl (by simp)
+
+/-- the property of a diagonal cell that the loop correction keeps: no monomial carries `o`
+    and the value is above `o` at every choice -/
+def DiagOK (p : Poly) : Prop := (∀ m ∈ p, m.scalar ≠ .o) ∧ ∀ c, p.evalD c ≠ .o
+
+theorem DiagOK.map_lfix {p : Poly} (h : DiagOK p) (d : Bool) : DiagOK (p.map (lfix d)) := by
+  have hsc : ∀ m : Mono, m.scalar ≠ .o → (lfix d m).scalar ≠ .o := by
+    intro m hm
+    unfold lfix
+    split
+    · intro hh; cases hh
+    · exact hm
+  refine ⟨?_, ?_⟩
+  · intro m hm
+    obtain ⟨m0, hm0, rfl⟩ := List.mem_map.1 hm
+    exact hsc m0 (h.1 m0 hm0)
+  · intro c
+    obtain ⟨m, hm, h1, h2⟩ := (evalD_ne_o_iff p c).1 (h.2 c)
+    exact (evalD_ne_o_iff _ c).2 ⟨lfix d m, List.mem_map.2 ⟨m, hm, rfl⟩,
+      by rw [lfix_matches]; exact h1, hsc m h2⟩
+
+theorem add_ne_nil {p q : Poly} (hp : p ≠ []) (hq : q ≠ []) : NZA (Poly.add p q) :=
+  NZA_add p q (fun h => absurd h hq) (fun h => absurd h hp)
+
+theorem ne_nil_of_evalD {p : Poly} {c : Choice} (h : p.evalD c ≠ .o) : p ≠ [] := by
+  rintro rfl
+  exact h (evalD_nil c)
+
+theorem DiagOK.addMonos {e : Poly} (h : DiagOK e) (he : e.WF = true) (ms : List Mono)
+    (hms : Poly.WF ms = true) : DiagOK (addMonos e ms) ∧ Poly.WF (addMonos e ms) = true := by
+  induction ms generalizing e with
+  | nil => exact ⟨h, he⟩
+  | cons x t ih =>
+    rw [WF_cons] at hms
+    have hx1 : Poly.WF [x.copy] = true := by
+      rw [copy_of_WF hms.1, WF_cons]
+      exact ⟨hms.1, rfl⟩
+    have hw : Poly.WF (Poly.add e [x.copy]) = true := WF_add e [x.copy] he hx1
+    have hv : ∀ c, (Poly.add e [x.copy]).evalD c ≠ .o := by
+      intro c hc
+      rw [evalD_add e [x.copy] c he hx1] at hc
+      exact h.2 c (add_eq_o hc).1
+    have hn := add_ne_nil (ne_nil_of_evalD (h.2 [])) (List.cons_ne_nil x.copy [])
+    exact ih (e := Poly.add e [x.copy]) ⟨no_o_of_NZA hn (hv []), hv⟩ hw hms.2
+
+/-! ## shape of fixpoint cells -/
+
+theorem ofList_ne_nil (l : List Mono) : Poly.ofList l ≠ [] := by
+  unfold Poly.ofList
+  split
+  · simp [Poly.zero]
+  · rename_i h
+    simpa [List.isEmpty_iff] using h
+
+theorem foldl_add_ne_nil {α : Type} (l : List α) (f : α → Poly) (hf : ∀ x, f x ≠ []) (init : Poly)
+    (hi : init ≠ []) : l.foldl (fun t x => Poly.add t (f x)) init ≠ [] := by
+  induction l generalizing init with
+  | nil => exact hi
+  | cons x t ih =>
+    rw [List.foldl_cons]
+    exact ih _ (add_ne_nil hi (hf x)).1
+
+theorem zero_ne_nil : Poly.zero ≠ [] := by simp [Poly.zero]
+
+theorem prodCell_ne_nil (a b : Matrix) (i j : Nat) : Matrix.prodCell a b i j ≠ [] := by
+  unfold Matrix.prodCell
+  refine (add_ne_nil (add_ne_nil ?_ ?_).1 ?_).1
+  · exact foldl_add_ne_nil _ _ (fun k => (NZA_times _ _).1) _ zero_ne_nil
+  · exact foldl_add_ne_nil _ _ (fun p => ofList_ne_nil _) _ zero_ne_nil
+  · exact foldl_add_ne_nil _ _ (fun p => ofList_ne_nil _) _ zero_ne_nil
+
+/-- cells of a tabulated matrix are non-empty when the entries are (out of range: `Poly.zero`) -/
+theorem get_tab_ne_nil (n m : Nat) (f : Nat → Nat → Poly) (hf : ∀ i j, f i j ≠ []) (i j : Nat) :
+    Matrix.get ((List.range n).map fun i => (List.range m).map fun j => f i j) i j ≠ [] := by
+  by_cases hi : i < n
+  · by_cases hj : j < m
+    · rw [Matrix.get_tabulate n m f i j hi hj]
+      exact hf i j
+    · unfold Matrix.get
+      rw [getD_map_range n _ i hi, getD_of_le _ _ _ (by simp; omega)]
+      exact zero_ne_nil
+  · unfold Matrix.get
+    rw [getD_of_le _ i [] (by simp; omega)]
+    exact zero_ne_nil
+
+/-- what the fixpoint loop keeps for `fix`: all cells non-empty, diagonal values above `o` -/
+structure FixInv (n : Nat) (m : Matrix) : Prop where
+  ne : ∀ i j, Matrix.get m i j ≠ []
+  diag : ∀ c i, i < n → (Matrix.get m i i).evalD c ≠ .o
+
+theorem FixInv.identity (n : Nat) : FixInv n (Matrix.identity n) := by
+  refine ⟨?_, ?_⟩
+  · intro i j
+    unfold Matrix.identity
+    apply get_tab_ne_nil
+    intro i j
+    split
+    · simp [Poly.unit]
+    · exact zero_ne_nil
+  · intro c i hi
+    unfold Matrix.identity
+    rw [Matrix.get_tabulate n n _ i i hi hi, if_pos (beq_self_eq_true i)]
+    intro h
+    cases h
+
+theorem step_inv (r fix cur : Relation) (h : r.WF) (hfw : fix.WF) (hfv : fix.vars = r.vars)
+    (hcw : cur.WF) (hcv : cur.vars = r.vars) (hI : FixInv r.vars.length fix.mat) :
+    FixInv r.vars.length (Relation.sum fix (Relation.composition cur r)).mat ∧
+    ∀ i j, i < r.vars.length → j < r.vars.length →
+      NZA (Matrix.get (Relation.sum fix (Relation.composition cur r)).mat i j) := by
+  have hcomp := fun c => composition_spec cur r hcw h hcv c
+  obtain ⟨c1, c2, _⟩ := hcomp []
+  have hv : fix.vars = (Relation.composition cur r).vars := by rw [hfv, c1, hcv]
+  have hsum := fun c => sum_spec fix (Relation.composition cur r) hfw c2 hv c
+  have hmat : (Relation.sum fix (Relation.composition cur r)).mat =
+      Matrix.sum fix.mat (Relation.composition cur r).mat := by
+    rw [sum_same fix _ hfw hv]
+  have hpm : (Relation.composition cur r).mat = Matrix.prod cur.mat r.mat := by
+    rw [composition_same cur r hcw hcv]
+  have hpne : ∀ i j, Matrix.get (Matrix.prod cur.mat r.mat) i j ≠ [] := by
+    intro i j
+    rw [Matrix.prod_eq]
+    exact get_tab_ne_nil _ _ _ (prodCell_ne_nil _ _) i j
+  have hlen : fix.mat.length = r.vars.length := by rw [hfw.2.2.1, hfv]
+  refine ⟨⟨?_, ?_⟩, ?_⟩
+  · intro i j
+    rw [hmat, hpm]
+    unfold Matrix.sum
+    exact get_tab_ne_nil _ _ _ (fun i j => (add_ne_nil (hI.ne i j) (hpne i j)).1) i j
+  · intro c i hi hc
+    obtain ⟨_, _, s3⟩ := hsum c
+    rw [hfv] at s3
+    have := s3 i hi i hi
+    unfold fn fadd at this
+    rw [this] at hc
+    exact hI.diag c i hi (add_eq_o hc).1
+  · intro i j hi hj
+    rw [hmat, hpm]
+    unfold Matrix.sum
+    simp only [hlen]
+    rw [Matrix.get_tabulate _ _ _ i j hi hj]
+    exact add_ne_nil (hI.ne i j) (hpne i j)
+
+theorem fixpointAux_inv (r : Relation) (h : r.WF) :
+    ∀ (fuel : Nat) (fix cur : Relation) (k : Nat) (res : Relation × Nat),
+      fix.WF → fix.vars = r.vars → cur.WF → cur.vars = r.vars →
+      FixInv r.vars.length fix.mat →
+      Relation.fixpointAux r fuel fix cur k = .ok res →
+      FixInv r.vars.length res.1.mat ∧
+      ∀ i j, i < r.vars.length → j < r.vars.length → NZA (Matrix.get res.1.mat i j) := by
+  intro fuel
+  induction fuel with
+  | zero =>
+    intro fix cur k res _ _ _ _ _ hres
+    simp [Relation.fixpointAux, throw, throwThe, MonadExceptOf.throw] at hres
+  | succ fuel ih =>
+    intro fix cur k res hfw hfv hcw hcv hI hres
+    obtain ⟨c1, c2, _⟩ := composition_spec cur r hcw h hcv []
+    have hv : fix.vars = (Relation.composition cur r).vars := by rw [hfv, c1, hcv]
+    obtain ⟨s1, s2, _⟩ := sum_spec fix (Relation.composition cur r) hfw c2 hv []
+    have hstep := step_inv r fix cur h hfw hfv hcw hcv hI
+    rw [Relation.fixpointAux] at hres
+    split at hres
+    · have hr : res = (Relation.sum fix (Relation.composition cur r), k + 1) := by
+        cases hres; rfl
+      subst hr
+      exact hstep
+    · exact ih _ _ _ res s2 (by rw [s1, hfv]) c2 (by rw [c1, hcv]) hstep.1 hres
+
+/-- every cell of a fixpoint result is non-empty with no zero alongside other terms; the diagonal
+    cells contain no zero at all and are above `o` at every choice -/
+theorem fixpoint_cells (r f : Relation) (h : r.WF) (hf : Relation.fixpoint r = .ok f) :
+    f.vars = r.vars ∧ f.WF ∧
+    (∀ i j, i < r.vars.length → j < r.vars.length → NZA (Matrix.get f.mat i j)) ∧
+    ∀ i, i < r.vars.length → DiagOK (Matrix.get f.mat i i) := by
+  obtain ⟨hv, hw, _⟩ := Relation.fixpoint_toSMat r f h hf []
+  unfold Relation.fixpoint at hf
+  rw [new_some_eq _ _ h.2.1 (by simp [Matrix.identity])] at hf
+  dsimp only at hf
+  cases hres : Relation.fixpointAux r (Relation.fixFuel r) ⟨r.vars, Matrix.identity r.vars.length⟩
+      ⟨r.vars, Matrix.identity r.vars.length⟩ 0 with
+  | error e => rw [hres] at hf; cases hf
+  | ok res =>
+    rw [hres] at hf
+    have hfe : res.1 = f := by cases hf; rfl
+    have hid := identity_wf r.vars h.1 h.2.1
+    obtain ⟨hI, hN⟩ := fixpointAux_inv r h _ _ _ 0 res hid rfl hid rfl
+      (FixInv.identity r.vars.length) hres
+    rw [hfe] at hI hN
+    refine ⟨hv, hw, hN, ?_⟩
+    intro i hi
+    exact ⟨no_o_of_NZA (hN i i hi hi) (hI.diag [] i hi), fun c => hI.diag c i hi⟩
+
+/-! ## the walk of the loop correction keeps the diagonal free of `o` -/
+
+theorem foldlM_inv_mem {σ α : Type} (step : σ → α → Except String σ) (Inv : σ → Prop)
+    (l : List α) (hstep : ∀ x ∈ l, ∀ s s', Inv s → step s x = .ok s' → Inv s') :
+    ∀ (s s' : σ), Inv s → l.foldlM step s = .ok s' → Inv s' := by
+  induction l with
+  | nil =>
+    intro s s' hi h
+    rw [List.foldlM_nil] at h
+    cases h
+    exact hi
+  | cons x t ih =>
+    intro s s' hi h
+    rw [List.foldlM_cons] at h
+    obtain ⟨s1, h1, h2⟩ := bind_ok h
+    exact ih (fun y hy => hstep y (List.mem_cons_of_mem _ hy)) s1 s'
+      (hstep x (List.mem_cons_self ..) s s1 hi h1) h2
+
+/-- state of the walk: square matrix of well-formed cells whose diagonal is free of `o` -/
+def WalkInv (n : Nat) (mat : Matrix) : Prop :=
+  Sq n mat ∧ ∀ a, a < n → DiagOK (Matrix.get mat a a)
+
+theorem loopStep_keeps {n ell : Nat} (hell : ell < n) {mat : Matrix} (hinv : WalkInv n mat)
+    {i j : Nat} (hi : i < n) (hj : j < n) (g : DG.Graph) (res : Matrix × DG.Graph)
+    (h : loopStep ell (mat, g) (i, j) = .ok res) : WalkInv n res.1 := by
+  obtain ⟨hs, hd⟩ := hinv
+  obtain ⟨s1, s2, _⟩ := loopStep_spec hs hi hj hell g res h
+  refine ⟨s1, ?_⟩
+  intro a ha
+  rw [s2 a a]
+  unfold stepCell
+  split
+  · exact (hd i hi).map_lfix true
+  · split
+    · rename_i hc
+      obtain ⟨hae, haj, _⟩ := hc
+      subst hae
+      subst haj
+      exact (DiagOK.addMonos (hd a ha) (hs.get_wf a a) _ (WF_filter' _ _ (hs.get_wf i a))).1
+    · exact hd a ha
+
+theorem walk_prefix_inv {n ell : Nat} (hell : ell < n) {mat0 : Matrix} (h0 : WalkInv n mat0)
+    (pre : List (Nat × Nat)) (hpre : ∀ x ∈ pre, x.1 < n ∧ x.2 < n) (g : DG.Graph)
+    (res : Matrix × DG.Graph) (h : pre.foldlM (loopStep ell) (mat0, g) = .ok res) :
+    WalkInv n res.1 := by
+  refine foldlM_inv_mem (loopStep ell) (fun s => WalkInv n s.1) pre ?_ (mat0, g) res h0 h
+  rintro ⟨i, j⟩ hx ⟨mat, g1⟩ s' hinv hstep
+  obtain ⟨hi, hj⟩ := hpre _ hx
+  exact loopStep_keeps hell hinv hi hj g1 s' hstep
+
+/-! ## cell-wise form of the while correction; the write set along the for walk -/
+
+theorem getElem_of_eq_map {p' p : Poly} {φ : Mono → Mono} (e : p' = p.map φ) (k : Nat)
+    (hk : k < p.length) (hk' : k < p'.length) : p'[k] = φ p[k] := by
+  subst e
+  rw [List.getElem_map]
+
+theorem whileCorrection_cell (r r' : Relation) (g g' : DG.Graph)
+    (hw : Relation.whileCorrection r g = .ok (r', g')) (i j : Nat) :
+    Matrix.get r'.mat i j = (Matrix.get r.mat i j).map (wfix (i == j)) := by
+  obtain ⟨e, _⟩ := whileCorrection_spec r r' g g' hw
+  subst e
+  exact get_wMat r.mat i j
+
+/-- every in-place write of the while correction of any relation: same shape, and a monomial
+    with scalar `o` or `m` is never changed -/
+theorem whileCorrection_spares (r r' : Relation) (g g' : DG.Graph)
+    (hw : Relation.whileCorrection r g = .ok (r', g')) (i j : Nat) :
+    (Matrix.get r'.mat i j).length = (Matrix.get r.mat i j).length ∧
+    ∀ k (hk : k < (Matrix.get r.mat i j).length) (hk' : k < (Matrix.get r'.mat i j).length),
+      (Matrix.get r'.mat i j)[k] ≠ (Matrix.get r.mat i j)[k] →
+        (Matrix.get r.mat i j)[k].scalar ≠ .o ∧ (Matrix.get r.mat i j)[k].scalar ≠ .m := by
+  have e := whileCorrection_cell r r' g g' hw i j
+  refine ⟨by rw [e, List.length_map], ?_⟩
+  intro k hk hk' hne
+  rw [getElem_of_eq_map e k hk hk'] at hne
+  obtain ⟨h1, _⟩ := wfix_ne _ _ hne
+  rcases h1 with h1 | ⟨_, h1⟩ <;> rw [h1] <;> exact ⟨by decide, by decide⟩
+
+/-- every cell visit of the for correction of a relation whose diagonal is free of `o`: the
+    monomials rewritten in place carried neither `o` nor `m` -/
+theorem loopWalk_spares {n : Nat} (mat0 : Matrix) (h0 : WalkInv n mat0) (ell : Nat) (hell : ell < n)
+    (g : DG.Graph) (pre post : List (Nat × Nat)) (i j : Nat)
+    (hsplit : loopCells mat0 = pre ++ (i, j) :: post)
+    (mat : Matrix) (g1 : DG.Graph)
+    (hpre : pre.foldlM (loopStep ell) (mat0, g) = .ok (mat, g1))
+    (p' e' : Poly) (g2 : DG.Graph)
+    (hcell : Relation.loopFixCell (i == j) (Matrix.get mat i j) (Matrix.get mat ell j) g1 =
+      .ok (p', e', g2)) :
+    p'.length = (Matrix.get mat i j).length ∧
+    ∀ k (hk : k < (Matrix.get mat i j).length) (hk' : k < p'.length),
+      p'[k] ≠ (Matrix.get mat i j)[k] →
+        (Matrix.get mat i j)[k].scalar ≠ .o ∧ (Matrix.get mat i j)[k].scalar ≠ .m := by
+  have hmem : ∀ x ∈ pre, x.1 < n ∧ x.2 < n := by
+    intro x hx
+    exact (mem_loopCells h0.1 x.1 x.2).1 (by rw [hsplit]; exact List.mem_append_left _ hx)
+  have hij : i < n ∧ j < n :=
+    (mem_loopCells h0.1 i j).1 (by rw [hsplit]; simp)
+  have hinv := walk_prefix_inv hell h0 pre hmem g (mat, g1) hpre
+  obtain ⟨hlen, hw⟩ := loopFixCell_write_set _ _ _ _ _ _ _ hcell
+  refine ⟨hlen, ?_⟩
+  intro k hk hk' hne
+  obtain ⟨hd, hm, _⟩ := (hw k hk hk').2 hne
+  have hije : i = j := by simpa using hd
+  subst hije
+  exact ⟨(hinv.2 i hij.1).1 _ (List.getElem_mem hk), hm⟩
+
+/-! ## totality of the for correction under the graph invariant -/
+
+theorem loopFixCell_total (diag : Bool) (p e : Poly) (g : DG.Graph) (hg : DG.GInv g) :
+    ∃ p' e' g', Relation.loopFixCell diag p e g = .ok (p', e', g') ∧ DG.GInv g' := by
+  unfold Relation.loopFixCell
+  have key := DG.foldlM_total (ε := String)
+    (fun (_ : List Mono) (st : List Mono × Poly × DG.Graph) => DG.GInv st.2.2)
+    (fun (st : List Mono × Poly × DG.Graph) mon => do
+      let (mon', g') ← (if diag && mon.scalar != .m then do
+          let g' ← DG.insertNode st.2.2 mon.deltas
+          pure ({ mon with scalar := Scalar.i }, g')
+        else pure (mon, st.2.2))
+      let ellCell' := if mon'.scalar == .p then Poly.add st.2.1 [mon'.copy] else st.2.1
+      pure (st.1 ++ [mon'], ellCell', g')) ?_ p ([], e, g) hg
+  · obtain ⟨⟨p', e', g'⟩, h1, h2⟩ := key
+    exact ⟨p', e', g', h1, h2⟩
+  · rintro ⟨acc, e1, g1⟩ mon rest h1
+    dsimp only at h1 ⊢
+    split
+    · obtain ⟨g2, hrun, hG2, _⟩ := DG.insertNode_total mon.deltas h1
+      rw [hrun]
+      exact ⟨_, rfl, hG2⟩
+    · exact ⟨_, rfl, h1⟩
+
+theorem loopCorrection_total (r : Relation) (x : String) (hx : x ∈ r.vars) (g : DG.Graph)
+    (hg : DG.GInv g) :
+    ∃ r' g', Relation.loopCorrection r x g = .ok (r', g') ∧ DG.GInv g' := by
+  rw [loopCorrection_eq]
+  have hidx : r.vars.idxOf? x = some (r.vars.idxOf x) :=
+    List.findIdx?_eq_some_of_exists ⟨x, hx, beq_self_eq_true x⟩
+  rw [hidx]
+  dsimp only
+  have key := DG.foldlM_total (ε := String)
+    (fun (_ : List (Nat × Nat)) (st : Matrix × DG.Graph) => DG.GInv st.2)
+    (loopStep (r.vars.idxOf x)) ?_ (loopCells r.mat) (r.mat, g) hg
+  · obtain ⟨⟨mat', g'⟩, h1, h2⟩ := key
+    rw [h1]
+    exact ⟨_, _, rfl, h2⟩
+  · rintro ⟨mat, g1⟩ ⟨i, j⟩ rest h1
+    unfold loopStep
+    dsimp only at h1 ⊢
+    obtain ⟨p', e', g2, h2, h3⟩ := loopFixCell_total (i == j) (Matrix.get mat i j)
+      (Matrix.get mat (r.vars.idxOf x) j) g1 h1
+    rw [h2]
+    exact ⟨_, rfl, h3⟩
+
 end Mwp.WriteSet
